@@ -99,12 +99,15 @@ DoEnd == Line.k = "end" /\ UNCHANGED <<sh, ob, sg, ex, sum, ob2, fk, shp>>
    whose aggregate figures lie); C11: the same, kept for lock-step continuation *)
 DoRestore ==
   /\ Line.k \in {"restore", "fork"}
-  /\ LET good == /\ Line.ok
+  /\ LET same == /\ Line.ok
                  /\ ObsOf(Line.st) = ob                       \* building the copy did not disturb the original (purity)
-                 /\ RestoredOk(ob, Line.price2, ObsOf(Line.st2), <<>>)
+                 /\ RestoredSame(ob, Line.price2, ObsOf(Line.st2))
                  /\ ApiOk(Line.st2) /\ ListOk(Line.st2)
-     IN /\ sum' = AddFails([sum EXCEPT !.restores = @ + 1],
-                           IF good THEN {}
+         good == same /\ RestoredQueue(ob, ObsOf(Line.st2))    \* ... and queued as the pinned code queues it
+     IN /\ sum' = AddFails([sum EXCEPT !.restores = @ + 1,
+                                        !.drifts = IF good \/ ~same \/ Cardinality(@) >= MaxFails THEN @
+                                                   ELSE @ \cup {[line |-> l, sc |-> ex.sc, run |-> ex.run]}],
+                           IF same THEN {}
                            \* a copy whose book differs is not equivalent either: listing it is already a
                            \* continuation with a different result (C11)
                            ELSE {Fail("C10", l)} \cup (IF Line.k = "fork" THEN {Fail("C11", l)} ELSE {}))
